@@ -13,9 +13,9 @@ def setKv (norm : Bool) (U : List Rat) : Option (List Rat) :=
   else some (knotNormalize U)
 
 def showSurfData (norm : Bool × Bool) (s : SurfData Rat) : Option String := do
-  let (pu, pv, Uu, Uv, su, sv, P) := s
-  let Uu ← setKv norm.1 Uu
-  let Uv ← setKv norm.2 Uv
+  let _ ← setKv norm.1 s.2.2.1
+  let _ ← setKv norm.2 s.2.2.2.1
+  let (pu, pv, Uu, Uv, su, sv, P) := surfDataNormalize norm.1 norm.2 s
   return s!"{pu} {pv} {showList Uu} {showList Uv} {su} {sv} {showPts P}"
 
 /-- `Curve.derivatives(u, 1)` (default evaluator, A3.2 as coded; A4.2 for rational curves) -/
